@@ -234,8 +234,13 @@ def r29(ctx: Ctx) -> RuleReport:
         except AnalysisError as exc:
             rep.undecided(f'{de.fq}: condition of the inversion', de.loc(c), str(exc))
             continue
-        d = bn.equivalent(cond, ('atom', f'self.is_role_inverted({tp}[1])'))
-        rep.add(f'{de.fq}: inverts exactly when is_role_inverted(triple[1])', de.loc(c), 'ok' if d is None else 'undecided', bn.show(cond))
+        inv_atom = ('atom', f'self.is_role_inverted({tp}[1])')
+        d = bn.equivalent(cond, inv_atom)
+        stronger = d is not None and inv_atom[1] in bn.atoms_of(cond) and bn.equivalent(bn.mk_and([cond, bn.mk_not(inv_atom)]), False) is None
+        rep.add(f'{de.fq}: inverts exactly when is_role_inverted(triple[1])', de.loc(c),
+                'ok' if d is None else ('violation' if stronger else 'undecided'),
+                bn.show(cond) if not stronger else f'the triple is deinverted only when {bn.show(cond)}: with {d} an inverted triple is returned unchanged, so '
+                                                   f'deinverting is no longer the same as inverting it')
         rep.add(f'{de.fq}: the whole triple is inverted', de.loc(c), 'ok' if len(c.args) == 1 and norm(c.args[0]) == tp else 'undecided')
     # has_role
     hr = repo.func(M, 'Model.has_role')
@@ -273,6 +278,15 @@ def r29(ctx: Ctx) -> RuleReport:
     first, last = pieces[0], pieces[-1]
     alts = len(joins) == 1 and joins[0][1] == '|' and all(w in joins[0][2] for w in ('roles', 'top_role', 'concept_role'))
     key = f'{init.fq}: the role pattern joins all role patterns, the top role and the concept role with |'
+    wrongvar = None
+    if len(joins) == 1 and not alts:
+        for prm, const in (('concept_role', 'CONCEPT_ROLE'), ('top_role', 'TOP_ROLE')):
+            if prm in init.params and prm not in joins[0][2] and const in joins[0][2]:
+                wrongvar = (prm, const)
+    if wrongvar:
+        rep.violation(key, init.loc(pat), f'the alternatives are {joins[0][2][:90]}: the module constant {wrongvar[1]} is used where the argument `{wrongvar[0]}` '
+                      f'belongs, so a model built with its own {wrongvar[0]} does not define that role (":instance-of" would count as inverted)')
+        return rep
     rep.add(key, init.loc(pat), 'ok' if alts else 'undecided', str(pieces)[:140])
     if alts:
         key = f'{init.fq}: alternatives are grouped and anchored so that a role matches as a whole'
